@@ -57,6 +57,8 @@ class C04(Prop):
             bad = sc.gen_pair(rng, kind, float(h), lv, want_domain=False)
             if bad is None:
                 continue
+            if rng.random() < 0.2:  # a missing value is not in the domain either
+                bad = (float("nan"), 2.0) if rng.random() < 0.5 else (2.0, float("nan"))
             n = rng.randint(1, 4)
             pairs = [sc.gen_pair(rng, kind, float(h), lv) for _ in range(n)]
             pairs.insert(rng.randint(0, n), bad)
